@@ -49,7 +49,9 @@ def extra_conds():
             lambda: R.extcommunity_soo.has_any("SOO1"), lambda: R.match_v6("PL6B", or_longer=(None, 64)),
             # the same lists referred to in another order / with and without an or_longer override (names are derived from both)
             lambda: R.community.has_any("C2", "C1"), lambda: R.community.has_any("C1", "C2", "C1"), lambda: R.large_community.has_any("LG1", "LG2", "LG1"),
-            lambda: R.extcommunity_rt.has_any("RT1", "RT2", "RT1"), lambda: R.match_v4("PL4B"), lambda: R.match_v4("PL4", or_longer=(24, 32)),
+            lambda: R.extcommunity_rt.has_any("RT1", "RT2", "RT1"), lambda: R.match_v4("PL4B"),
+            # several names in one match, some of them used by an earlier statement already
+            lambda: R.match_v4("PL4", "PL4B"), lambda: R.match_v4("PL4B", "PL4", or_longer=(20, 28)), lambda: R.match_v6("PL6B", "PL6"), lambda: R.match_v4("PL4", or_longer=(24, 32)),
             lambda: R.match_v6("PL6B"), lambda: R.large_community.has_any("LG2", "LG1"), lambda: R.extcommunity_rt.has_any("RT2", "RT1")]
 
 
